@@ -210,15 +210,19 @@ def flp : P String := do
   | .optimal x y =>
     if !optimalPairB n rows c x y then return "skip certificate_rejected" else
     let opt := dualVal rows y
+    let tiny := (C ++ b).any (fun f => f.vals.any (fun q => q != 0 && decide (absQ q < 1 / 10^5)))
     if st != "some" then
-      let kind := if rec.solveRes == 5 || rec.solveRes == 25 then "lp_solve_numerical_failure" else "no_solution"
+      let numfail := rec.solveRes == 5 || rec.solveRes == 25
+      -- lp_solve's own NUMFAILURE / ACCURACYERROR on an instance with coefficients below 1e-5 (the "ugly" stream) is the
+      -- ill-conditioning that stream is meant to probe, not a verdict; on any other instance it is a failing input
+      if numfail && tiny then return "skip ill_conditioned" else
+      let kind := if numfail then "lp_solve_numerical_failure" else "no_solution"
       return (v.failIf true s!"FactoredLP {kind} status={st} lp_solve_result={rec.solveRes} flat_optimum={ratStr opt}").render
     let v := v.failIf (w.length != n - 1) s!"FactoredLP wrong_weight_count {w.length}"
     let phiW := flpMaxErr S C b addConst w
     let kind := if C.isEmpty && addConst then "error_not_minimal_no_basis" else "error_not_minimal"
     -- coefficients of magnitude < 1e-5 (the "ugly" stream) put the instance below lp_solve's own accuracy (LP::getPrecision = 5e-7):
     -- a gap between 1e-7 and 1e-5 is then reported as ill-conditioned, not as a verdict
-    let tiny := (C ++ b).any (fun f => f.vals.any (fun q => q != 0 && decide (absQ q < 1 / 10^5)))
     let gap := phiW - opt
     -- … or the (certified or returned) weights are of order > 1e6, where a 1e-7 absolute tolerance on φ is below double precision
     let blown := decide (maxAbs w > 10^6) || decide (maxAbs x > 10^6)
